@@ -159,7 +159,6 @@ def _reference_answers(doc, S):
     S.begin_phase("reference", [])
     S.begin_op(-1)
     refs = {}
-    bb = parse_belief_base(doc["base"]["text"])
     cfgs = {}
     for op in doc["ops"]:
         if op["op"] == "new_manager":
@@ -174,6 +173,8 @@ def _reference_answers(doc, S):
                 continue
             try:
                 t0 = S.now
+                # the trivial history: fresh base object, fresh manager, one query, one call
+                bb = parse_belief_base(doc["base"]["text"])
                 m = InferenceManager(bb, cfg[0], "z3", cfg[1], cfg[2])
                 df = m.inference(parse_queries(text))
                 vt = S.now - t0
@@ -618,9 +619,15 @@ def generate(prop, verif_seed, idx, tier="quick", cls=None, recover=False):
         return _generate_poison(prop, sseed, idx, g)
     # ---- base -------------------------------------------------------------------------
     weakly_base = g.random() < 0.15
-    if g.random() < 0.3 and not weakly_base and W.shipped_bases():
+    defaults_base = False
+    if g.random() < (0.1 if cls == "z3" else 0.3) and not weakly_base and W.shipped_bases():
         src, sig, text = g.choice(W.shipped_bases())
         conds = None
+    elif cls == "z3" and not weakly_base and g.random() < 0.4:
+        sig, conds = W.gen_defaults_base(g)
+        text = W.base_text(sig, conds)
+        src = "gen"
+        defaults_base = True
     else:
         sig, conds = W.gen_base(g, want="weakly" if weakly_base else "consistent", max_atoms=g.choice([3, 4, 5]), max_conds=g.choice([3, 5, 7]))
         text = W.base_text(sig, conds)
@@ -628,8 +635,14 @@ def generate(prop, verif_seed, idx, tier="quick", cls=None, recover=False):
     # ---- queries ----------------------------------------------------------------------
     npool = g.randint(3, 8)
     pool = []
+    bias = "conflict" if (cls == "z3" and conds and g.random() < 0.6) else None
+    if defaults_base and len(conds) >= 3:
+        for _ in range(2):
+            t = W.cond_text(W.gen_survivor_query(g, conds))
+            if t not in pool:
+                pool.append(t)
     for _ in range(npool):
-        t = W.cond_text(W.gen_query(g, sig, conds))
+        t = W.cond_text(W.gen_query(g, sig, conds, bias=bias))
         if t not in pool:
             pool.append(t)
     if len(sig) >= 2 and g.random() < 0.15:
@@ -649,6 +662,15 @@ def generate(prop, verif_seed, idx, tier="quick", cls=None, recover=False):
     n_mgr = g.choice([1, 1, 2, 3])
     for _ in range(n_mgr):
         ops.append(_pick_cfg(g, force_z3=(cls == "z3"), weakly_only=weakly_base))
+    if n_mgr >= 2 and g.random() < 0.4:
+        # siblings over the same base object: the same operator in the other mode, or with the
+        # other kind of back-end (anything cached on the shared base must not leak between them)
+        sib = dict(ops[0])
+        if sib["system"] in ("system-w", "lex_inf") and g.random() < 0.5:
+            sib["pmaxsat"] = g.choice(RC2_BACKENDS) if sib["pmaxsat"] == "z3" else "z3"
+        elif sib["system"] != "c-inference" and not weakly_base:
+            sib["weakly"] = not sib["weakly"]
+        ops[1] = sib
     n_calls = g.randint(2, 6) if prop == "C13" else g.randint(1, 4)
     budgets = [0, 1, 2, 5, 30, 0.5, 1.5]
     calls = []
@@ -661,6 +683,8 @@ def generate(prop, verif_seed, idx, tier="quick", cls=None, recover=False):
                 texts[-1] = texts[0]
         else:
             texts = g.sample(pool, min(n, len(pool)))
+        if defaults_base and pool and pool[0] not in texts:
+            texts[g.randrange(len(texts))] = pool[0]
         keys = _pick_keys(g, len(texts))
         op = {"op": "inference", "mgr": mgr, "batch": [[k, t] for k, t in zip(keys, texts)], "multi": False}
         if cls in ("par", "stall"):
@@ -735,7 +759,10 @@ def _generate_poison(prop, sseed, idx, g):
         body = text[text.find("{") + 1 : text.rfind("}")]
         ctexts = [c.strip().rstrip(",").replace(" ", "") for c in body.split("\n") if "|" in c]
     else:
-        sig, conds = W.gen_base(g, want="consistent", max_atoms=g.choice([3, 4, 5]), max_conds=g.choice([4, 6]), style="literal")
+        if g.random() < 0.3:
+            sig, conds = W.gen_defaults_base(g)
+        else:
+            sig, conds = W.gen_base(g, want="consistent", max_atoms=g.choice([3, 4, 5]), max_conds=g.choice([4, 6]), style="literal")
         text, src = W.base_text(sig, conds), "gen"
         ctexts = [W.cond_text(c) for c in conds]
     pool = []
@@ -747,6 +774,17 @@ def _generate_poison(prop, sseed, idx, g):
             pool.append("(%s|%s)" % (nb, a))
     for _ in range(3):
         pool.append(W.cond_text(W.gen_conditional(g, sig, "literal")))
+    if len(ctexts) >= 2:
+        for _ in range(2):
+            pick = g.sample(ctexts, min(len(ctexts), g.choice([2, 2, 3])))
+            parts = []
+            for t in pick:
+                b, a = t[1:-1].split("|", 1)
+                nb = b[1:] if (b.startswith("!") and "," not in b and ";" not in b) else "!(%s)" % b
+                parts.append("(%s,%s)" % (a, nb) if a != "Top" else nb)
+            rest = [t for t in ctexts if t not in pick]
+            b0 = (g.choice(rest) if rest and g.random() < 0.6 else pick[0])[1:-1].split("|", 1)[0]
+            pool.append("(%s|%s)" % (b0, ";".join(parts)))
     pool = list(dict.fromkeys(pool))
     system = g.choice(["c-inference", "c-inference", "system-w", "lex_inf"])
     ops = [{"op": "new_manager", "system": system, "pmaxsat": g.choice(RC2_BACKENDS), "weakly": False}]
@@ -815,7 +853,7 @@ SPECS = {
     "C14": {
         "n_quick": 900,
         "n_thorough": 12000,
-        "sweeps_quick": 6,
+        "sweeps_quick": 8,
         "sweeps_thorough": 160,
         "recheck": 10,
         "rule": (
@@ -847,7 +885,7 @@ def jobs(prop, verif_seed, n, tier):
         made = 0
         idx = 10**6
         while made < ns and idx < 10**6 + 50 * ns + 50:
-            doc = generate("C14", verif_seed, idx, tier, cls=("poison", "z3", "seq", "poison")[made % 4], recover=True)
+            doc = generate("C14", verif_seed, idx, tier, cls=("poison", "z3", "seq", "z3")[made % 4], recover=True)
             idx += 1
             cand = [i for i, op in enumerate(doc["ops"]) if op["op"] == "inference" and _budget_of(op) > 0 and not op.get("multi")]
             if not cand:
